@@ -106,7 +106,10 @@ func (p *policyRulesMergeContext) merge(policy *PolicyRules) {
 		existing, found := p.identityRules[id.Name]
 
 		if !found {
-			p.identityRules[id.Name] = id
+			// Store a copy: the rule may be updated below while merging later
+			// policies, and the policy it came from is shared between tokens.
+			ruleCopy := *id
+			p.identityRules[id.Name] = &ruleCopy
 			continue
 		}
 
@@ -124,7 +127,10 @@ func (p *policyRulesMergeContext) merge(policy *PolicyRules) {
 		existing, found := p.identityPrefixRules[id.Name]
 
 		if !found {
-			p.identityPrefixRules[id.Name] = id
+			// Store a copy: the rule may be updated below while merging later
+			// policies, and the policy it came from is shared between tokens.
+			ruleCopy := *id
+			p.identityPrefixRules[id.Name] = &ruleCopy
 			continue
 		}
 
@@ -224,7 +230,10 @@ func (p *policyRulesMergeContext) merge(policy *PolicyRules) {
 		existing, found := p.serviceRules[sp.Name]
 
 		if !found {
-			p.serviceRules[sp.Name] = sp
+			// Store a copy: the rule may be updated below while merging later
+			// policies, and the policy it came from is shared between tokens.
+			ruleCopy := *sp
+			p.serviceRules[sp.Name] = &ruleCopy
 			continue
 		}
 
@@ -242,7 +251,10 @@ func (p *policyRulesMergeContext) merge(policy *PolicyRules) {
 		existing, found := p.servicePrefixRules[sp.Name]
 
 		if !found {
-			p.servicePrefixRules[sp.Name] = sp
+			// Store a copy: the rule may be updated below while merging later
+			// policies, and the policy it came from is shared between tokens.
+			ruleCopy := *sp
+			p.servicePrefixRules[sp.Name] = &ruleCopy
 			continue
 		}
 
